@@ -137,7 +137,7 @@ def _metric_case():
     def build(draw):
         n = draw(BATCH_SIZES)
         rows = [{'a': draw(gen.unit_quaternions(allow_denormal=False)), 'axis': draw(gen.axes()), 't': draw(t),
-                 'flip': draw(st.booleans()), 's1': draw(gen.log_uniform(-1, 1)), 's2': draw(gen.log_uniform(-1, 1))} for _ in range(n)]
+                 'flip': draw(st.booleans()), 's1': draw(gen.scales(-1, 1)), 's2': draw(gen.scales(-1, 1))} for _ in range(n)]
         return {'rows': rows, 'idx': draw(st.integers(0, n-1))}
     return build()
 
